@@ -601,7 +601,28 @@ def hier_specs(draw):
 
 
 @st.composite
+def inout_cases(draw):
+    """small fixed-shape case: a leaf with an INOUT port whose actual is a whole object / typed view / slice(+view) of
+    an inout port of Top with another (or the same) VHDL vector type; judged on the emitted port map (text)"""
+    w = draw(st.integers(1, 5))
+    fk = draw(st.sampled_from(["u", "s", "bv"]))
+    rk = draw(st.sampled_from(["bv", "u", "s"]))
+    extra = draw(st.sampled_from([0, 0, 2, 3]))
+    if extra:
+        lo = draw(st.integers(0, extra))
+        sl = [lo + w - 1, lo]
+        view = None if fk == "bv" else fk      # a slice has Python type BitVector
+    else:
+        sl = None
+        view = fk if fk != rk else None
+    return {"inout": {"w": w, "fk": fk, "rk": rk, "rw": w + extra, "sl": sl, "view": view,
+                      "where": draw(st.sampled_from(["arch", "conc"]))}}
+
+
+@st.composite
 def cases(draw):
+    if draw(st.integers(0, 9)) == 9:
+        return draw(inout_cases())
     spec = draw(hier_specs())
     stim = draw(st.lists(st.integers(0, (1 << 40) - 1), min_size=8, max_size=8))
     return {"spec": spec, "stim": stim}
